@@ -21,8 +21,8 @@ MANIFEST = {
             "Peer selection, helper arithmetic and the handlers are tied to the Go code by running both on all small multisets of "
             "peer tips / random peer sets and on random responder chains (cache sizes 1..515, removed blocks, heights near 2^32, "
             "malformed requests); every implementation answer is also checked against the declarative oracle.",
-    "note": "Two genuine defects repaired in /repo (most-frequent-ID loop never updated max; uint32 overflow of height+103 in the "
-            "GetBlocksFromID handler). Convergence is proved on the model only; it is tied to the code through the handler and "
+    "note": "Three genuine defects repaired in /repo (most-frequent-ID loop never updated max; uint32 overflow of height+103 in the "
+            "GetBlocksFromID handler; fast-sync restore overwrote the saved original blocks). Convergence is proved on the model only; it is tied to the code through the handler and "
             "peer-selection correspondence, not by running two nodes. Trusted: Coq kernel + vm_compute, fidelity of the hand "
             "models as sampled, Go harness, Python glue.",
 }
@@ -121,6 +121,15 @@ def evaluate(ck, recs):
     for rec in chains:
         if rec.get("setup"):
             ck.fail_obligation("harness-setup", "responder chain could not be built: " + rec["setup"])
+    for r in [x for x in recs if x["k"] == "temp"]:
+        if r.get("setup"):
+            ck.fail_obligation("harness-setup", "temp scenario could not be built: " + r["setup"])
+            continue
+        ck.count()
+        ck.nontrivial(("temp", r["orig"], r["down"], r.get("save", False)))
+        if not r.get("save") and r["temp"] != list(range(1, r["orig"] + 1)):
+            ck.fail_case("c19:temp:spec", "temp blocks after delete(save) / apply / delete(no save) are not the original blocks: "
+                         "fast sync could not restore them: " + json.dumps(r), r, corr="Chain.RemoveBlock / GetTempBlocks vs Sync.Converge")
     per = {"hcb": [], "bfi": [], "last": []}
     for rec in chains:
         if rec.get("setup"):
